@@ -176,6 +176,11 @@ func DecodeSegment(b []byte) (Header, []Group, int, error) {
 			}
 			off = pend
 		case TypeCommit:
+			if len(cur.Entries) == 0 && !cur.HasIndex {
+				// "a commit frame follows every batch": one that commits nothing is never written
+				// (and would check out trivially, the CRC of no bytes being zero)
+				return h, groups, committed, ferr("commit frame at %d commits nothing (no entry or index frame since the previous commit)", off)
+			}
 			want := crc32.Checksum(b[crcStart:off], castagnoli)
 			if v != want {
 				return h, groups, committed, ferr("commit at %d: CRC %08x, bytes since previous commit hash to %08x", off, v, want)
